@@ -86,6 +86,18 @@ func EncodeFieldValue(b []byte, val client.NormalValue, descending bool) []byte 
 		}
 		return EncodeStringAscending(b, v.Value())
 	}
+	if v, ok := val.Bytes(); ok {
+		if descending {
+			return EncodeBytesDescending(b, v)
+		}
+		return EncodeBytesAscending(b, v)
+	}
+	if v, ok := val.NillableBytes(); ok {
+		if descending {
+			return EncodeBytesDescending(b, v.Value())
+		}
+		return EncodeBytesAscending(b, v.Value())
+	}
 	if v, ok := val.Time(); ok {
 		if descending {
 			return EncodeTimeDescending(b, v)
